@@ -103,9 +103,9 @@ def run(ctx):
     coll = Collector()
     if quick:
         confs = [
-            dict(name="ties", reals=["a", "b", "c", "d"], cplx=[], V=[1, 2], depth=3, walk=2500),
-            dict(name="complex", reals=["a"], cplx=["z", "w"], V=[-1, 2], depth=3, walk=2500),
-            dict(name="mixed", reals=["a", "b"], cplx=["z"], V=[-1, 0, 2], depth=3, walk=2500),
+            dict(name="ties", reals=["a", "b", "c"], cplx=[], V=[1, 2], depth=4, walk=2500),
+            dict(name="complex", reals=["a"], cplx=["z", "w"], V=[-1, 2], depth=3, walk=3000),
+            dict(name="mixed", reals=["a", "b"], cplx=["z"], V=[-1, 0, 2], depth=3, walk=2000),
         ]
         prop_confs = [
             dict(name="ties", reals=["a", "b", "c", "d"], cplx=[], V=[1, 2], depth=5),
@@ -183,9 +183,25 @@ def run(ctx):
         budget = conf["walk"]
         edge_list = [(u, v, lab) for u in order for v, lab in out.get(u, [])]
         if len(edge_list) > budget:
-            # keep every edge of the BFS tree region near the root, sample the rest (seeded)
-            rng.shuffle(edge_list)
-            edge_list = edge_list[:budget]
+            # stratified seeded sample: edges are grouped by (action, abstract context of the source
+            # state) and the budget is spread evenly over the groups, so that rare combinations
+            # (a refresh of a tied group that contains a fixed name, a coordinate switch with tied
+            # components, ...) are replayed as surely as the common ones
+            groups = {}
+            for e in edge_list:
+                groups.setdefault(edge_signature(nodes[e[0]], e[2]), []).append(e)
+            keys = sorted(groups, key=repr)
+            for k in keys:
+                rng.shuffle(groups[k])
+            picked = []
+            rnd = 0
+            while len(picked) < budget and any(groups[k] for k in keys):
+                for k in keys:
+                    if groups[k] and len(picked) < budget:
+                        picked.append(groups[k].pop())
+                rnd += 1
+            edge_list = picked
+            ctx.part("graph_walk_%s" % conf["name"], strata=len(keys))
         by_src = {}
         for u, v, lab in edge_list:
             by_src.setdefault(u, []).append((v, lab))
@@ -285,6 +301,36 @@ def run(ctx):
     ctx.assume("complex values restricted to the lattice r*i^k (Cartesian form on an axis); bound in the state machine is the custom expression x+1 on [0,3]; analytic bound kinds only in the numeric part")
     ctx.assume("histories follow the order create, fix/free, tie, bound, then arbitrary interleaving (phase variable)")
     ctx.assume("ReadWriteIdentity is stated for sessions without an active mask block")
+
+
+def edge_signature(st, lab):
+    """abstract context of a transition: action + what kind of state it starts from"""
+    free = set(st["free"])
+    cells = st["cell"]
+    names = list(cells)
+    free_cells = {cells[n] for n in free}
+    fixed = [n for n in names if cells[n] not in free_cells]
+    tie_groups = {}
+    for n in names:
+        tie_groups.setdefault(cells[n], []).append(n)
+    tied = [g for g in tie_groups.values() if len(g) > 1]
+    comp = lambda n: len(n) > 1 and n[-1] in "ri" and n[:-1] in (dict(st["polar"]) if st["polar"] else {})
+    pol = dict(st["polar"]) if st["polar"] else {}
+    arg0 = lab[1][0] if lab[1] else None
+    target = arg0 if isinstance(arg0, str) else (arg0[0] if isinstance(arg0, tuple) and arg0 and isinstance(arg0[0], str) else None)
+    return (
+        lab[0],
+        bool(fixed),
+        bool(tied),
+        any(cells[g[0]] not in free_cells for g in tied),                       # a tied group that is fixed
+        any(comp(n) for g in tied for n in g),                                   # tie involving complex components
+        any(st["bnd"].values()),
+        any(v != "None" for v in st["mask"].values()),
+        tuple(sorted(pol.values())),
+        any(st["store"][cells[n]] != 1 for n in fixed if not comp(n)),           # a fixed real away from its start value
+        (target in fixed) if target else None,
+        (any(target in g for g in tied)) if target else None,
+    )
 
 
 def step_from(rep, snap_u, st_u, step, on_fail):
